@@ -782,6 +782,14 @@ fn update_case(old: &str, new: &str, attrs: &[Attribution], author: &str, ts: u1
                     }
                 }
                 oracles.push(oracle("whitespace_reformat_keeps_lines", bad.is_none(), json!({"input": witness, "at": bad}), "ws-reformat"));
+                // no line (blank ones included) may get an author none of the priors had: inserted
+                // whitespace inherits, whitespace deletes leave no marker
+                if !attrs.is_empty() {
+                    let prior_authors: BTreeSet<&str> = attrs.iter().map(|a| a.author_id.as_str()).chain([HUMAN]).collect();
+                    let stranger = (0..ln.len()).find(|&k| ea[k].as_ref().is_some_and(|x| !prior_authors.contains(x.0.as_str())));
+                    oracles.push(oracle("ws_reformat_no_new_author", stranger.is_none(),
+                        json!({"input": witness, "line": stranger.map(|k| k + 1), "after": jlines(after)}), "ws-reformat:new-author"));
+                }
             }
         } else {
             oracles.push(oracle("no_panic", false, json!({"input": witness, "where": "attributions_to_line_attributions"}), "panic:to-lines"));
@@ -1179,6 +1187,42 @@ fn gen_projection(rng: &mut Rng, em: &mut Emitter) {
     }
 }
 
+fn segs_of(v: &Value) -> Vec<Seg> {
+    v.as_array().map(|a| a.iter().map(|x| (x[0].as_u64().unwrap_or(0) as u8, bytes_of(&x[1]))).collect()).unwrap_or_default()
+}
+
+fn pairs_of(v: &Value) -> Vec<(usize, usize)> {
+    v.as_array().map(|a| a.iter().map(|x| (x[0].as_u64().unwrap_or(0) as usize, x[1].as_u64().unwrap_or(0) as usize)).collect()).unwrap_or_default()
+}
+
+/// replay of a synthetic witness: the real catalog + transform + merge on supplied segments
+fn transform_witness_case(v: &Value, em: &mut Emitter, tags: Vec<String>) {
+    let segs = segs_of(&v["segs"]);
+    let subst = pairs_of(&v["subst"]);
+    let moves: Vec<Move> = v["moves"].as_array().map(|a| a.iter().map(|m| {
+        let g = |k: usize| m[k].as_u64().unwrap_or(0) as usize;
+        (g(0), g(1), (g(2), g(3)), (g(4), g(5)))
+    }).collect()).unwrap_or_default();
+    let attrs = attrs_of(&v["attrs"]);
+    let author = v["author"].as_str().unwrap_or("r").to_string();
+    let ts = v["ts"].as_u64().unwrap_or(1) as u128;
+    let (s2, su2, m2, a2, au2) = (segs.clone(), subst.clone(), moves.clone(), attrs.clone(), author.clone());
+    let real = catch(move || vh::merge_attributions(vh::transform_parts(&s2, &su2, &m2, &a2, &au2, ts)));
+    let imp = match &real {
+        Ok(out) => json!({"ok": jattrs(out)}),
+        Err(_) => json!({"err": "panic"}),
+    };
+    // `tr_update` on already-sorted priors = merge(transform(..)); corpus witnesses keep priors sorted
+    emit_case(
+        em,
+        json!({"op": "tr_update", "segs": jsegs(&segs), "subst": jpairs(&subst), "moves": jmoves(&moves),
+               "attrs": jattrs(&attrs), "author": author, "ts": ts as u64}),
+        imp,
+        vec![],
+        tags,
+    );
+}
+
 fn corpus_case(v: &Value, em: &mut Emitter) {
     let kind = v["kind"].as_str().unwrap_or("");
     let tags = vec![format!("corpus:{kind}")];
@@ -1188,6 +1232,7 @@ fn corpus_case(v: &Value, em: &mut Emitter) {
         "update" => update_case(&s("old"), &s("new"), &attrs_of(&v["attrs"]), v["author"].as_str().unwrap_or("ai_1"), ts, em, tags),
         "to_lines" => to_lines_case(&s("content"), &attrs_of(&v["attrs"]), em, tags),
         "from_lines" => from_lines_case(&s("content"), &lines_of(&v["lines"]), ts, em, tags),
+        "transform" => transform_witness_case(v, em, tags),
         "fill" => fill_case(&s("content"), &attrs_of(&v["attrs"]), v["author"].as_str().unwrap_or(HUMAN), ts, em, tags),
         _ => {}
     }
